@@ -11,6 +11,13 @@ open RgVerif RgVerif.Matcher RgVerif.Lines RgVerif.GrepSpec RgVerif.MLSpec
 def SpanSane (m : MatcherI) (inp : Bytes) : Prop :=
   ∀ pos s e, pos ≤ inp.length → m.findAt inp pos = some ⟨s, e⟩ → pos ≤ s ∧ s ≤ e ∧ e ≤ inp.length
 
+theorem spanSaneB_sound {m : MatcherI} {inp : Bytes} (h : spanSaneB m inp = true) : SpanSane m inp := by
+  intro pos s e hpos hf
+  unfold spanSaneB at h
+  have := List.all_eq_true.mp h pos (List.mem_range.mpr (by omega))
+  rw [hf] at this
+  simpa [and_assoc] using this
+
 theorem rfindByte_some {t : Nat} : ∀ {l : Bytes} {i : Nat}, rfindByte t l = some i → i < l.length ∧ l[i]? = some t := by
   intro l
   induction l with
